@@ -94,7 +94,7 @@ func (r Wrapper) handleS2SAccessTokenRequest(ctx context.Context, clientID strin
 
 	// Parse optional DPoP header
 	httpRequest := ctx.Value(httpRequestContextKey{}).(*http.Request)
-	dpopProof, err := dpopFromRequest(*httpRequest)
+	dpopProof, err := r.dpopFromTokenRequest(*httpRequest)
 	if err != nil {
 		return nil, err
 	}
